@@ -40,14 +40,47 @@ func ruleF2Repair(p *Prog) *RuleResult {
 		}
 	}
 	if ta == nil || caseBlk == nil {
-		res.undecided("roaring.repairAfterLazy|bitmap case", p.pos(f.Pos()), "no type-switch case for *bitmapContainer on the parameter")
-		return res
+		// the switch may have become dispatch through an unexported interface: `if r, ok := c.(I); ok { return r.m() }`
+		// with (*bitmapContainer).m as the former case body
+		for _, b := range f.Blocks {
+			for _, ins := range b.Instrs {
+				x, ok := ins.(*ssa.TypeAssert)
+				if !ok || x.X != ssa.Value(prm) {
+					continue
+				}
+				iface, ok := x.AssertedType.Underlying().(*types.Interface)
+				if !ok || iface.NumMethods() == 0 {
+					continue
+				}
+				if !types.Implements(bcPtr, iface) {
+					continue
+				}
+				for i := 0; i < iface.NumMethods(); i++ {
+					sel := p.SSA.MethodSets.MethodSet(bcPtr).Lookup(iface.Method(i).Pkg(), iface.Method(i).Name())
+					if sel == nil {
+						continue
+					}
+					if m := p.SSA.MethodValue(sel); m != nil && m.Blocks != nil && m.Signature.Results().Len() == 1 {
+						f, prm = m, m.Params[0]
+						ta, caseBlk = nil, m.Blocks[0]
+					}
+				}
+			}
+		}
+		if caseBlk == nil {
+			res.undecided("roaring.repairAfterLazy|bitmap case", p.pos(f.Pos()), "no type-switch case for *bitmapContainer on the parameter, and no interface dispatch that *bitmapContainer implements")
+			return res
+		}
 	}
 	var tv ssa.Value
-	for _, r := range *ta.Referrers() {
-		if ex, ok := r.(*ssa.Extract); ok && ex.Index == 0 {
-			tv = ex
+	if ta != nil {
+		for _, r := range *ta.Referrers() {
+			if ex, ok := r.(*ssa.Extract); ok && ex.Index == 0 {
+				tv = ex
+			}
 		}
+	} else {
+		tv = prm // the method's receiver is the bitmap container itself
 	}
 	n := 0
 	for _, b := range f.Blocks {
@@ -87,7 +120,7 @@ func ruleF2Repair(p *Prog) *RuleResult {
 			n++
 			c := fmt.Sprintf("roaring.repairAfterLazy|bitmap container handed back#%d", n)
 			guard := tv
-			if guard == nil {
+			if guard == nil && ta != nil {
 				guard = ta
 			}
 			okG, why := p.exceedsThreshold(guard, e, thr)
